@@ -424,6 +424,13 @@ class IMAPClientCommand:
         #
         self.fetch_peek = True
 
+        # `expunge_regardless` is set on the phony EXPUNGE commands that MOVE
+        # and POP3's QUIT queue on a mailbox: they remove the messages they
+        # name whether or not those are `\Deleted`, so unlike a plain EXPUNGE
+        # they always conflict with the commands that are running.
+        #
+        self.expunge_regardless = False
+
         # NOTE: This attribute is set by the mbox's management task before the
         #       task is allowed to run (since it needs the context of a mbox to
         #       know the max seq and how to map uid's to IMAP message sequence
